@@ -348,7 +348,7 @@ func (c *Collection) getViewRows(view *rosmarView, params *sgbucket.ViewParams) 
 	} else {
 		sel += `ORDER BY mapped.key, documents.key `
 	}
-	if params.Limit != nil {
+	if params.Limit != nil && params.Keys == nil { // (with a key list the limit applies after that filter, in ProcessParsed)
 		sel += fmt.Sprintf(`LIMIT %d `, *params.Limit)
 		params.Limit = nil
 	}
